@@ -509,11 +509,13 @@ int World::execute()
 
 World::~World()
 {
+	g_mute = true;
 	net.reset();
 	timers.clear();
 	nodes.clear();
 	sim.reset();
 	cfg.reset();
+	g_mute = false;
 	if (!pcap_path.empty())
 	{
 		// the capture is complete once the simulation (and its pcap object) is gone
